@@ -3,18 +3,118 @@ import re
 from traces import *
 import C16
 
-TECHNIQUE = 'static analysis: path enumeration over MIR per const-generic instantiation (set/restore pairing of the FP rounding mode, direction table) + origin tracking of interval bounds'
+TECHNIQUE = 'static analysis: path enumeration over MIR per const-generic instantiation (set/restore pairing of the FP rounding mode, direction table) + origin tracking of interval bounds and of returned pair components (contradiction rule)'
 EXPLANATION = ('(a) alter_fp_rounding_mode::<UPPER>: on every path fegetround() is followed by fesetround(mode), the operation, and '
                'fesetround(saved) in this order with no exit in between; mode is FE_UPWARD for UPPER=true and FE_DOWNWARD for UPPER=false '
                '(both constants evaluated from the program). (b) In every function of interval_arithmetic.rs that builds an interval from '
                'add/sub/mul/div_bounds results, the value that flows into the LOWER argument of Interval::new derives only from '
                '*_bounds::<false> calls and the UPPER argument only from *_bounds::<true> calls (origin tags through min_of_bounds / '
                'max_of_bounds). (c) get_inverse_op maps each arithmetic operator to its arithmetic inverse and is an involution. '
-               'Everything else about interval soundness (constraint propagation, cardinality, casts) is not decided.')
+               '(d) pair orientation: in every function that takes two interval operands and answers a pair of intervals (satisfy_greater, propagate_comparison, '
+               'propagate_arithmetic, ...) no operand determines component 0 alone on one path and component 1 alone on another (the pair is never built in both orders). '
+               'Everything else about interval soundness (the bound computations of constraint propagation, cardinality, casts) is not decided.')
 ASSUMPTIONS = ['the x86_64/aarch64 non-windows cfg variant is the one analysed (the build configuration of this sandbox)']
 
 ROUND = 'datafusion_common::rounding::'
 IA = 'datafusion_expr_common::interval_arithmetic::'
+
+
+IV = 'datafusion_expr_common::interval_arithmetic::Interval'
+
+
+def _tags_in(v, out):
+    v0 = strip(v)
+    if isinstance(v0, U):
+        if v0.tag:
+            out.add(v0.tag)
+        for _, c in v0.ch:
+            _tags_in(c, out)
+    elif isinstance(v0, T):
+        for x in v0.items:
+            _tags_in(x, out)
+    elif isinstance(v0, A):
+        for _, x in v0.fields:
+            _tags_in(x, out)
+    elif isinstance(v0, (R, MR)):
+        _tags_in(v0.v, out)
+    return out
+
+
+def pair_orientation(ctx, facts, ty=IV, scope=('datafusion_expr_common', 'datafusion_physical_expr'), rule='pair-orientation'):
+    """(d) Functions that take two or more operands of the interval type and answer a pair of intervals (satisfy_greater, propagate_comparison,
+    propagate_arithmetic, ...): the caller assigns component 0 to the first child and component 1 to the second.  Contradiction rule, no naming
+    convention needed: if an operand's own value flows ALONE into component 0 on one path and ALONE into component 1 on another path of the same
+    function (private helpers of the same modules followed), the pair is built in both orders and one of the two hands the children each other's
+    interval.  Paths whose two components derive from the same single operand (the 'both collapse to one point' case) are not counted."""
+    n = 0
+    bad = 0
+    cands = []
+    for d, i, e in facts.all_fn_entries():
+        sig = e[8]
+        if not sig or e[4] not in ('fn', 'assoc_fn') or e[7] not in scope or '::test' in d:
+            continue
+        if sum(1 for t in sig[1:] if t.lstrip('&') == ty) >= 2 and ('(%s, %s)' % (ty, ty)) in sig[0]:
+            cands.append((d, i))
+    names_of = set(d for d, _ in cands)
+    mods = set(d.rsplit('::', 1)[0] for d in names_of)
+    for d, i in sorted(cands):
+        rec = facts.fn(d, i)
+        pnames = [rec['locals'][k + 1][1] or 'a%d' % k for k in range(rec['argc'])]
+        operands = [pnames[k] for k in range(rec['argc']) if rec['locals'][k + 1][0].lstrip('&') == ty]
+        args = [R(sym(nm)) if rec['locals'][k + 1][0].startswith('&') else sym(nm) for k, nm in enumerate(pnames)]
+
+        def inl(nm):
+            # the pair-returning functions themselves and the tuple-shuffling helpers next to them (reverse_tuple) are followed
+            if nm in names_of:
+                return True
+            r2 = facts.fn(nm)
+            # tuple-shuffling helpers: one argument, a tuple in, a tuple out
+            return (r2 is not None and nm.rsplit('::', 1)[0] in mods and r2['argc'] == 1 and r2['locals'][0][0].startswith('(')
+                    and r2['locals'][1][0].startswith('('))
+        try:
+            outs = run_traces(facts, rec, args, inline_depth=0, inline_only=None, inline_pred=inl, time_budget=60, budget=2000000, try_tags=True)
+        except Undecidable as ex:
+            ctx.undecided(rule, d, str(ex))
+            bad += 1
+            continue
+        ctx.analysed_fns.add(d)
+        seen = {}       # (operand, component) -> example
+        npairs = 0
+        for o in outs:
+            v = strip(o.ret)
+            while isinstance(v, A) and v.name in ('Ok', 'Some') and v.fields:
+                v = strip(v.fields[0][1])
+            if not (isinstance(v, T) and len(v.items) == 2):
+                continue
+            npairs += 1
+            who = []
+            for c in v.items:
+                ts = _tags_in(c, set())
+                s_ = set()
+                for t in ts:
+                    for nm in operands:
+                        if re.search(r'(^|[(,:])%s([.,)]|$)' % re.escape(nm), t):
+                            s_.add(nm)
+                who.append(s_)
+            if len(who[0]) == 1 and who[0] == who[1]:
+                continue
+            for k in (0, 1):
+                if len(who[k]) == 1:
+                    seen.setdefault((next(iter(who[k])), k), (show(v.items[0])[:70], show(v.items[1])[:70]))
+        if npairs == 0:
+            ctx.skip(rule, d, 'no explored path returns a concrete pair')
+            continue
+        n += 1
+        contra = [nm for nm in operands if (nm, 0) in seen and (nm, 1) in seen]
+        if contra:
+            bad += 1
+            nm = contra[0]
+            ctx.fail(rule, d, ctx.loc(rec), 'operand `%s` alone determines component 0 on one path %s and component 1 on another %s: the pair is returned in both orders, '
+                     'so on one of them each child receives the interval computed for the other (values satisfying the constraint are removed)' % (nm, seen[(nm, 0)], seen[(nm, 1)]),
+                     key='%s|%s' % (rule, d))
+        else:
+            ctx.ok(rule, d, sample={'fn': d, 'paths_returning_a_pair': npairs, 'pure_components': sorted('%s->%d' % k for k in seen)})
+    return bad, n
 
 
 def run(ctx):
@@ -116,8 +216,17 @@ def run(ctx):
                 ctx.fail('inverse-op', op, ctx.loc(f.fn(G)), 'get_inverse_op(%s)=%s is not its arithmetic inverse / not an involution' % (op, op2), key='inverse-op|' + op)
             else:
                 ctx.ok('inverse-op', op, sample={'op': op, 'inverse': op2})
+    # (d)
+    pb, pn = pair_orientation(ctx, f)
+    ctx.floor('pair-orientation', 'pair-returning interval functions', pn, 3)
     # selftest
     st = ctx.st
+    import common
+    probe = common.Ctx(ctx.pid, ctx.tier, st, st, {})
+    probe.known = []
+    pair_orientation(probe, st, ty='dfscan_selftest::round::Iv', scope=('dfscan_selftest',), rule='st-pair')
+    ctx.selftest('pair-orientation reports a propagation that returns (left, right) on one branch and (right, left) on the other; silent on the consistent one',
+                 sorted(v['key'] for v in probe.viol) == ['st-pair|dfscan_selftest::round::propagate_bad'])
     rec = st.fn('dfscan_selftest::round::bad_alter')
     outs = run_traces(st, rec, [sym('x')], inline_depth=0)
     badseq = False
